@@ -27,9 +27,11 @@ from vplib.common import coq_str, coq_bool, coq_opt
 POSITIONS = ["id", "lpath_dst", "lpath_src", "cdir", "name", "address", "message"]
 
 # oracle tags -> known-finding slugs that may explain them.  The former classes cdir-empty and
-# cdir-collides-with-inventory were repaired in /repo (d88c1da, repo.rs:574-583): their inputs are still
+# cdir-collides-with-inventory were repaired in /repo (d88c1da, repo.rs:581-590): their inputs are still
 # generated (blank, inventory.json, inventory.json.<anything> and the neighbouring names) and MUST pass.
-K_ESC, K_VAL, K_TRIM = ("json-escape-borrowed", "validator-json-escape", "id-trimmed")
+# The former class id-trimmed was repaired by 031a721 (repo.rs:551-557): ids with outer white space are still
+# generated and MUST work in every later command under the very string given.
+K_ESC, K_VAL = ("json-escape-borrowed", "validator-json-escape")
 
 
 # --------------------------------------------------------------------------- generators
@@ -59,6 +61,12 @@ def gen_strings(ctx):
               "\u0085a", "a\u2028", "\u2029a", "\u1680a\u1680", "\u202fa", "\u205fa", "a\u200a", "\u2000a", "\u00a0", "\u3000\u3000",
               " a\"b ", "\u200ba", "a\u180e", "\u2060a"]:
         add("space", s)
+    # blank after trimming (refused as an object id, repo.rs:553) next to strings that only look blank
+    # (U+200B, U+FEFF, U+2060, U+180E and 0x1C-0x1F are not White_Space: accepted)
+    for s in ["\t", "\n", "\r\n", "\x0b", "\x0c", " \t\n ", "\u0085", "\u1680", "\u2000\u200a", "\u2028", "\u2029", "\u202f\u205f",
+              " \u00a0\u3000\t", "\u200b", "\ufeff", "\u2060", "\u180e", "\x1c", "\x1d", "\x1e", " \u200b ", "\u00a0\u200b",
+              "  urn:example:x  ", "\u3000ab\u3000", "\nab", "ab\r\n", "\u00a0 ab \u00a0", "a b", " a  b "]:
+        add("blank-id", s)
     for s in ["%", "a%20b", "%2F", "%00", "100%", "a%b%c"]:
         add("percent", s)
     for s in ["", ".", "..", "...", "/", "//", "a/b", "a//b", "/a", "a/", "a/./b", "a/../b", "./a", "a/.", "a/b/", "/a/b/", ".a", "a.",
@@ -67,7 +75,7 @@ def gen_strings(ctx):
     for s in ["inventory.json", "inventory.json.sha512", "inventory.json.sha256", "inventory.json.md5", "content", "v1", "v2",
               "extensions", "extensions/0005-mutable-head", "0=ocfl_object_1.1", "logs", "CON", "null", "true", "0", "-"]:
         add("reserved", s)
-    # the guard of create_object (repo.rs:574-583) and its neighbours: refused are "", inventory.json and every
+    # the guard of create_object (repo.rs:581-590) and its neighbours: refused are "", inventory.json and every
     # name beginning with "inventory.json."; everything else here is an ordinary directory name
     for s in ["inventory.json.", "inventory.json.x", "inventory.json.sha512x", "inventory.json.SHA512", "inventory.json.blake2b-512",
               "inventory.json. ", "inventory.json.\u00e9", "inventory.json.a\"b", "inventory.json..", "inventory.jso", "inventory.jsonx",
@@ -367,13 +375,13 @@ def analyse(case, o):
             if stored is not None:
                 want_token(o["staged0"], stored, "id")
             if stored != s:
-                msgs.append(("object id written to the inventory differs from the id given", [K_TRIM]))
+                msgs.append(("object id written to the inventory differs from the id given", []))
             all_ok = o["cp_ok"] and staged_ok and later_reads_ok
             if not all_ok:
-                msgs.append(("create_object accepted the id, a later command with the same id fails", [K_TRIM]))
+                msgs.append(("create_object accepted the id, a later command with the same id fails", []))
             else:
                 if go["ok"]["id"] != s:
-                    msgs.append(("get_object returns a different id", [K_TRIM]))
+                    msgs.append(("get_object returns a different id", []))
                 want_token(o["committed"], s, "committed id")
                 if not vclean:
                     msgs.append(("rocfl validate rejects the inventory rocfl wrote", [K_VAL]))
@@ -506,7 +514,7 @@ def analyse(case, o):
 
 
 KNOWN_FLAGS = {
-    "id": [K_TRIM, K_VAL],
+    "id": [K_VAL],
     "cdir": [K_VAL],
     "lpath_dst": [K_ESC, K_VAL],
     "lpath_src": [K_ESC, K_VAL],
